@@ -45,6 +45,8 @@ def cases(tier, seed):
     for inst in sweep.spine_instances(tier, seed):
         for cls in ("kFlowDecomp", "kMinPathError", "kLeastAbsErrors", "MinFlowDecomp"):
             yield dict(inst, cls=cls, level=1)
+    for name in HAND_MFD:
+        yield dict(HAND_MFD[name][0], cls="MinFlowDecomp", level=1, hand_mfd=name)
     for name in OFFWALK:
         for cls in sweep.CYC_CLASSES:
             yield {"offwalk": name, "cls": cls, "fam": "cyc"}
@@ -57,6 +59,18 @@ def cases(tier, seed):
 # Graphs in which some arcs lie on NO source-to-sink walk (the documented domain of the error / cover models is 'a directed graph';
 # for the others such arcs can be ignored): a base route s->a->t (and a diamond) with a dead-end 2-cycle, a source-less 2-cycle,
 # an isolated 2-cycle, a dead-end self-loop or a dead-end arc into a cycle attached at an inner node.
+# hand-written inputs on which 'the flow leaving the sources' is NOT the sum of the route weights (a route starts on a value-less
+# ignored arc / at a source node without the attribute): the generating-set lower bound must not be applied blindly
+HAND_MFD = {
+    "valueless_ignored_arc_from_a_source": ({"fam": "dag", "nodes": ["u", "v", "p", "r", "t1", "q", "t2", "x"],
+                                             "arcs": [["u", "v", 8], ["v", "p", 3], ["p", "r", 4], ["r", "t1", 3], ["r", "q", 1], ["v", "q", 5], ["q", "t2", 6], ["x", "p", None]]},
+                                            {"weight_type": "int", "elements_to_ignore": [["x", "p"]]}),
+    "source_node_without_value": ({"fam": "dag", "nodes": ["s1", "s2", "x", "y", "t1"], "arcs": [["s1", "x", None], ["s1", "y", None], ["s2", "x", None], ["x", "t1", None], ["x", "y", None]],
+                                   "node_w": {"s1": 14, "s2": None, "x": 7, "y": 11, "t1": 5}},
+                                  {"weight_type": "int", "flow_attr_origin": "node"}),
+}
+
+
 OFFWALK = {
     "deadend_cycle": ([("s", "a", 5), ("a", "t", 5)], [("a", "c", 2), ("c", "d", 2), ("d", "c", 2)]),
     "sourceless_cycle": ([("s", "a", 5), ("a", "t", 5)], [("c", "a", 2), ("c", "d", 2), ("d", "c", 2)]),
@@ -107,6 +121,30 @@ def _offwalk(case):
     return {"v": viol[:4], "nt": nt, "tags": dict(tags), "out": "viol" if viol else "ok"}
 
 
+def _hand_mfd(case):
+    viol, nt, tags = [], [], collections.Counter()
+    inst, kw0 = HAND_MFD[case["hand_mfd"]]
+    cls = "MinFlowDecomp"
+    assignments = sweep.flag_sets(cls, 1)
+    extra = [("mingenset", {"use_min_gen_set_lowerbound": True}), ("mingenset+part", {"use_min_gen_set_lowerbound": True, "use_min_gen_set_lowerbound_partition_constraints": True}),
+             ("guessed+mgs", {"optimize_with_guessed_weights": True, "use_min_gen_set_lowerbound": True}), ("mingenset,greedy_off", {"use_min_gen_set_lowerbound": True, "optimize_with_greedy": False}),
+             ("scanning", {"use_subgraph_scanning_lowerbound": True}), ("scanning+mingenset", {"use_subgraph_scanning_lowerbound": True, "use_min_gen_set_lowerbound": True})]
+    ref_obs = drivers.observe(dict(inst, cls=cls, kw=dict(kw0, optimization_options=dict(assignments[1][1]))))
+    ref = ("exc", ref_obs["exc_type"]) if ref_obs["exc"] else _objective(cls, ref_obs, "paths")
+    for aname, fl in [assignments[0]] + assignments[2:] + extra:
+        obs = drivers.observe(dict(inst, cls=cls, kw=dict(kw0, optimization_options=dict(fl))))
+        tags["runs"] += 1
+        cur = ("exc", obs["exc_type"]) if obs["exc"] else _objective(cls, obs, "paths")
+        if obs["exc"] and obs["exc_type"] == "ValueError" and "Cannot optimize with both" in obs["exc"]:
+            continue
+        if cur != ref:
+            viol.append({"kind": "option_raises" if obs["exc"] else "option_changes_result", "opt": aname,
+                         "msg": f"{cls}({case['hand_mfd']}: {inst.get('arcs')} {inst.get('node_w', '')}; options {aname}): {cur} {obs['exc'] or ''}, with all optimisations off: {ref}"})
+        else:
+            nt.append(f"{case['hand_mfd']}|{aname}")
+    return {"v": viol[:4], "nt": nt, "tags": dict(tags), "out": "viol" if viol else "ok"}
+
+
 def _objective(cls, obs, rkey):
     if not obs["solved"]:
         return ("unsolved",)
@@ -124,6 +162,8 @@ def run(case):
     cls = case["cls"]
     if case.get("offwalk"):
         return _offwalk(case)
+    if case.get("hand_mfd"):
+        return _hand_mfd(case)
     cyc = sweep.is_cyc(cls)
     rkey = "walks" if cyc else "paths"
     ckey = "subset_constraints" if cyc else "subpath_constraints"
@@ -156,6 +196,31 @@ def run(case):
         inputs.append(("plain", inst, dict(base_kw)))
         if not cover:
             inputs.append(("float", inst, dict(base_kw, weight_type="float")))
+        if cls in ("MinFlowDecomp", "MinFlowDecompCycles"):
+            # node-weighted twin, also with one source node lacking the attribute, and a value-less ignored arc out of a new source:
+            # inputs on which 'total flow leaving the sources' is not the sum of the route weights (lower-bound options must cope)
+            twin = sweep.node_twin(inst)
+            inputs.append(("node", twin, dict(base_kw, flow_attr_origin="node")))
+            srcs = [x for x in inst["nodes"] if not any(a[1] == x for a in inst["arcs"])]
+            if len(srcs) >= 1 and len(inst["nodes"]) >= 3:
+                nw = dict(twin["node_w"])
+                nw[srcs[0]] = None
+                inputs.append(("node,source_without_value", dict(twin, node_w=nw), dict(base_kw, flow_attr_origin="node")))
+            inner_ = sweep.inner_nodes(inst)
+            if inner_:
+                extra_arcs = [list(a) for a in inst["arcs"]] + [["zz", inner_[0], None]]
+                bumped = [[a[0], a[1], a[2]] for a in extra_arcs]
+                # the route zz -> inner -> ... -> sink carries weight 2: add it along a shortest way to a sink
+                cur, seen_ = inner_[0], set()
+                while cur not in seen_:
+                    seen_.add(cur)
+                    nxt = [a for a in bumped if a[0] == cur and a[2] is not None]
+                    if not nxt:
+                        break
+                    nxt[0][2] += 2
+                    cur = nxt[0][1]
+                inputs.append(("valueless_ignored_source_arc", dict(inst, nodes=list(inst["nodes"]) + ["zz"], arcs=bumped),
+                               dict(base_kw, elements_to_ignore=[["zz", inner_[0]]])))
     con = sweep.a_constraint(inst)
     if con:
         nm, ii, kw0 = inputs[-1] if not is_k else inputs[1 if len(inputs) > 1 else 0]
@@ -164,6 +229,9 @@ def run(case):
         inputs.append((nm + ",constraint,coverage=0.5", ii, dict(kw0, **{ckey: [con], cc: 0.5})))
         if not cyc:
             lengths = {f"{a[0]}|{a[1]}": 1 + 2 * (i % 2) for i, a in enumerate(ii["arcs"])}
+            # a length attribute WITHOUT a length coverage: the constraint is still counted in arcs
+            inputs.append((nm + ",constraint,length_attr_only", dict(ii, lengths={k_: 3 for k_ in lengths}), dict(kw0, **{ckey: [con], "length_attr": "length"})))
+            inputs.append((nm + ",constraint,length_attr_only,mixed", dict(ii, lengths=lengths), dict(kw0, **{ckey: [con], "length_attr": "length"})))
             # a long constraint (3 arcs if one exists) under length coverage < 1
             g_ = sweep.O.STGraph(ii["nodes"], E)
             long_c = None
@@ -176,6 +244,14 @@ def run(case):
                 for cl_ in (0.5, 0.34):
                     inputs.append((nm + f",constraint{len(c_)},coverage_length={cl_}", dict(ii, lengths=lengths),
                                    dict(kw0, **{ckey: [c_], "subpath_constraints_coverage_length": cl_, "length_attr": "length"})))
+    if cls in ("kFlowDecomp", "MinFlowDecomp") and not case.get("named"):
+        # all flows zero (k zero-weight paths are a decomposition)
+        zero_inst = dict(inst, arcs=[[a[0], a[1], 0] for a in inst["arcs"]])
+        inputs.append(("all_zero_flows", zero_inst, dict(base_kw, **({"k": max(1, width)} if is_k else {}))))
+    if cls == "kFlowDecomp" and not case.get("named"):
+        # given weights that cannot explain the flow (every entry exceeds the largest flow value): infeasible whatever the options
+        big = max(a[2] for a in inst["arcs"]) + 3
+        inputs.append(("weights_superset_unusable", inst, dict(base_kw, k=kopt, solution_weights_superset=[big] * max(2, kopt))))
     if len(E) > 1 and sweep.width_of(inst, ignored=[E[0]]):
         nm, ii, kw0 = inputs[0] if not is_k else inputs[min(1, len(inputs) - 1)]
         inputs.append((nm + ",ignore", ii, dict(kw0, elements_to_ignore=[list(E[0])])))
